@@ -311,6 +311,97 @@ def run(ctx):
     ctx.extra['play_wire_runs_skipped_deflate'] = nskip
     errors_tie(ctx)
     vprofile_play_tie(ctx)
+    play47_tie(ctx)
+
+
+def play47_tie(ctx):
+    """Tie of the play-state Set Compression part of Model/PlayWire.lean (protocol <= 47): server streams with keep-alives,
+    position packets, unknown frames and Set Compression packets in mid-stream against the real client; compared byte for
+    byte: the server stream as framed by refcodec under the threshold in force, and the RAW bytes the client sent after
+    login (each reply framed with the threshold in force when it was written)."""
+    import minecraft.networking.connection as C
+    from minecraft.networking.packets import clientbound as cb, serverbound as sb
+    rng = ctx.rng
+    V = 47
+    cx = C.ConnectionContext(protocol_version=V)
+    KA_CB, KA_SB = cb.play.KeepAlivePacket.get_id(cx), sb.play.KeepAlivePacket.get_id(cx)
+    PL_CB, PL_SB = cb.play.PlayerPositionAndLookPacket.get_id(cx), sb.play.PositionAndLookPacket.get_id(cx)
+    DISC, SETC = cb.play.DisconnectPacket.get_id(cx), cb.play.SetCompressionPacket.get_id(cx)
+    lines, impl = [], []
+    for case in range(ctx.scale(40, 400)):
+        n = rng.choice([1, 2, 5, 20, 49, 50, 51, 52, 99, 100, 101, 120, 160])
+        comp0 = rng.choice([None, None, 128])
+        evs, script, srv = [], [], b''
+        thr = comp0
+        for i in range(n):
+            r = rng.random()
+            if r < 0.5:
+                kid = rng.choice([0, 1, 127, 128, 300, 2 ** 31 - 1, 2 ** 32 - 2])
+                evs.append('ka:%d' % kid)
+                script.append(('raw', KA_CB, rc.varint(kid)))
+                srv += rc.frame(rc.varint(KA_CB) + rc.varint(kid), thr)
+            elif r < 0.7:
+                x, y, z, yaw, pitch = (rng.randrange(-1000, 1000) for _ in range(5))
+                fl = rng.randrange(32)
+                body = struct.pack('>dddff', x, y, z, yaw, pitch) + bytes([fl])
+                evs.append('pos:%s:%s:%s:%s:%s:%d:0' % (struct.pack('>d', x).hex(), struct.pack('>d', y).hex(), struct.pack('>d', z).hex(),
+                                                      struct.pack('>f', yaw).hex(), struct.pack('>f', pitch).hex(), fl))
+                script.append(('raw', PL_CB, body))
+                srv += rc.frame(rc.varint(PL_CB) + body, thr)
+            elif r < 0.85:
+                data = bytes(rng.randrange(256) for _ in range(rng.choice([0, 1, 5, 40])))
+                evs.append('unk:%d:%s' % (0x7E, data.hex() or '-'))
+                script.append(('raw', 0x7E, data))
+                srv += rc.frame(rc.varint(0x7E) + data, thr)
+            else:
+                t = rng.choice([64, 100, 256, 1000, 2 ** 31 - 1, 2 ** 32 - 1])
+                evs.append('setc:%d' % t)
+                script.append(('play_compress', t))
+                srv += rc.frame(rc.varint(SETC) + rc.varint(t), thr)
+                thr = t
+        if rng.random() < 0.5:
+            j = '{"text":"bye"}'
+            evs.append('disc:%s' % j.encode().hex())
+            script.append(('raw', DISC, rc.string(j)))
+            srv += rc.frame(rc.varint(DISC) + rc.string(j), thr)
+        pre = ([('compress', comp0)] if comp0 is not None else []) + [('success',)]
+        cfg = {'version': V, 'script': pre + script, 'ignore_play_bytes': True}
+        if rng.random() < 0.5:
+            cfg['segment'] = rng.choice([1, 2, 3, 7, 16])
+        calls = []
+        with simnet.Net(lambda s: RefServer(s, cfg)) as net:
+            conn = C.Connection('h', 1, username='u', allowed_versions={V},
+                                handle_exception=lambda e, i: calls.append(('exc', repr(e))),
+                                handle_exit=lambda: calls.append(('exit',)))
+            conn.connect()
+            net.run_threads()
+            raw_sent = bytes(net.sockets[0].sent)
+        p_ = 0
+        for _ in range(2):
+            n_, q_ = rc.read_varint(raw_sent, p_)
+            p_ = q_ + n_
+        lines.append('playwire.run ka=%d:%d:V pos=%d:%d:E:- disc=%d thr=%s capw=300 capr=50 setc=%d %s' % (
+            KA_CB, KA_SB, PL_CB, PL_SB, DISC, 'none' if comp0 is None else comp0, SETC, ' '.join(evs)))
+        impl.append((srv, raw_sent[p_:], calls))
+    nw = nskip = nsc = nmixed = 0
+    for line, mo, (srv_b, cli_b, calls) in zip(lines, ctx.driver.ask(lines), impl):
+        if mo == 'skip:deflate':
+            nskip += 1
+            continue
+        ctx.case(('playwire47', line), sample={'op': 'playwire.run (protocol 47, play-state set compression)', 'request': line[:140]}
+                 if rng.random() < 0.05 else None)
+        f = dict(x.split('=', 1) for x in mo.split()[1:]) if mo.startswith('ok ') else {}
+        want = 'srv=%s cli=%s' % (srv_b.hex() or '-', cli_b.hex() or '-')
+        got_m = 'srv=%s cli=%s' % (f.get('srv'), f.get('cli'))
+        nw += 1
+        nsc += 'setc:' in line
+        nmixed += len(set(f.get('thrs', '-').split(','))) > 1
+        if got_m != want or any(c[0] == 'exc' for c in calls):
+            k = next((i for i, (a, b) in enumerate(zip(got_m, want)) if a != b), min(len(got_m), len(want)))
+            ctx.disagree('play-state bytes at protocol 47 with Set Compression in mid-stream (client errors %r)' % (calls[:1],),
+                         line[:300], got_m[max(0, k - 40):k + 60], want[max(0, k - 40):k + 60])
+    ctx.extra['play47_wire_runs'] = {'compared': nw, 'with_set_compression': nsc, 'replies_under_more_than_one_threshold': nmixed,
+                                     'skipped_deflate': nskip}
 
 
 _VPROFILE = {}
